@@ -28,7 +28,8 @@ func c16R1(c *engine.Ctx) {
 	r := c.MustFunc("C16.R1", "proto/codec", "readAbridged")
 	if w != nil && r != nil {
 		var tW, tR, marker, shW, shR int64 = -1, -1, -1, -1, -1
-		engine.Instrs(w, func(i ssa.Instruction) {
+		// (the length prefix may be written/read by a helper of the package)
+		instrsWithHelpers(w, func(i ssa.Instruction) {
 			switch x := i.(type) {
 			case *ssa.If:
 				// whichever way the test is written: one of the two edges says "len>>s < T"
@@ -61,7 +62,7 @@ func c16R1(c *engine.Ctx) {
 				}
 			}
 		})
-		engine.Instrs(r, func(i ssa.Instruction) {
+		instrsWithHelpers(r, func(i ssa.Instruction) {
 			switch x := i.(type) {
 			case *ssa.If:
 				for _, br := range []bool{true, false} {
